@@ -43,7 +43,7 @@ PROPS = {
     },
     "C14": {
         "level": "exploration",
-        "level_text": "every model server / memory device discovered from the source tree that exposes a single-register Get/Update/Pull triple is put behind wrapper -> router -> wrapper (all real code, free-running between the two wrappers) and driven with protoreflect-built random updates, update masks (valid, invalid, nil) and read masks, with 0-2 open streams whose readers keep up; relational register laws at true quiescence after every RPC; a stream opened while another client's Update is in progress (handler goroutines scheduled by the simulator) must have arrived at what Get returns once at rest; concurrent relative updates from several clients come to what a second instance of the server makes of them from one caller, a rejected one having changed nothing; measured coverage of the discovered triples",
+        "level_text": "every model server / memory device discovered from the source tree that exposes a single-register Get/Update/Pull triple is put behind wrapper -> router -> wrapper (all real code, free-running between the two wrappers) and driven with protoreflect-built random updates, update masks (valid, invalid, nil) and read masks, with 0-2 open streams whose readers keep up; relational register laws at true quiescence after every RPC; a stream opened while another client's Update is in progress (handler goroutines scheduled by the simulator) must have arrived at what Get returns once at rest; concurrent relative updates from several clients come to what a second instance of the server makes of them from one caller, a rejected one having changed nothing; generated concurrent Updates leave what the successful ones alone make of a second instance of the server in some order; measured coverage of the discovered triples",
         "level_note": TRUST + "; servers whose constructor or request shape the discovery does not understand are listed in the evidence as not covered; float fields count as changed only from a difference of 1.0 (the models' tolerances are their business); tweens are not advanced between an Update and the following Get",
         "technique": "deterministic simulation (client task, fake clock, synctest quiescence) of the full wrapper/router/wrapper/server stack with relational read-your-writes oracles over discovered Get/Update/Pull triples",
         "rule": ("(server, triple) from the decision tape, then 1-6 RPCs (Update with random message and mask kind, Get with read mask, open Pull updates-only or not); every run is non-trivial (client, server and stream readers); "
@@ -52,7 +52,7 @@ PROPS = {
             {"name": "stack", "quick": 40000, "thorough": 2000000, "thorough_time": 300, "extra": ["-sim.only=get-failed,read-mask,read-changed-state,pull-failed,pull-no-seed,pull-seed,pull-name,unrouted,rejected-update-changed-state,read-your-write,update-not-streamed,stream-order-differs,rpc-stuck,panic"]},
             {"name": "stack-race", "quick": 20000, "thorough": 1000000, "thorough_time": 150, "extra": ["-sim.only=get-failed,read-mask,read-changed-state,pull-failed,pull-no-seed,pull-seed,pull-name,unrouted,rejected-update-changed-state,read-your-write,update-not-streamed,stream-order-differs,rpc-stuck,panic"]},
             {"name": "stack-relative", "quick": 10000, "thorough": 500000, "thorough_time": 60},
-            {"name": "stack-serial", "quick": 20000, "thorough": 1000000, "thorough_time": 80},
+            {"name": "stack-serial", "quick": 60000, "thorough": 1000000, "thorough_time": 80},
         ],
         "case_space": "from_worker",
         "case_space_what": "(discovered server, Get/Update/Pull triple) pairs",
@@ -212,7 +212,7 @@ PROPS = {
     },
     "C02": {
         "level": "exploration",
-        "level_text": "seeded exploration of 2-4 writers interleaved at every hooked window of the optimistic read / change / lock / save / publish sequence; every history checked for linearizability against the reference model; trait-level read-modify-write (count deltas, enter/leave totals) and a trait whose writes continue in a goroutine of their own (brightness fades as scheduled tasks, clients calling while a fade ticks: an acknowledged later write is never overwritten) and a model that deletes on its own (the hail keep-alive collector against concurrent refreshes); on every discovered server: concurrent relative updates (delta / relative flags, small and large steps) come to what a second instance of the server makes of the same updates from one caller, and after generated concurrent Updates the state is the response of one of the successful ones; a model that keeps a log beside its resource (waste records) holds exactly the adds that reported success; operations that span a model's two resources (electric: find the normal mode, make it active) are one step for every concurrent caller; a model whose writes merge through an interceptor of its own (metadata) shows keys of refused calls nowhere; evidence over sampled schedules",
+        "level_text": "seeded exploration of 2-4 writers interleaved at every hooked window of the optimistic read / change / lock / save / publish sequence; every history checked for linearizability against the reference model; trait-level read-modify-write (count deltas, enter/leave totals) and a trait whose writes continue in a goroutine of their own (brightness fades as scheduled tasks, clients calling while a fade ticks: an acknowledged later write is never overwritten) and a model that deletes on its own (the hail keep-alive collector against concurrent refreshes); on every discovered server: concurrent relative updates (delta / relative flags, small and large steps) come to what a second instance of the server makes of the same updates from one caller, and after generated concurrent Updates the state is the response of one of the successful ones and what those alone make of a second instance of the server, applied one after the other in some order; a model that keeps a log beside its resource (waste records) holds exactly the adds that reported success; operations that span a model's two resources (electric: find the normal mode, make it active) are one step for every concurrent caller; a model whose writes merge through an interceptor of its own (metadata) shows keys of refused calls nowhere; evidence over sampled schedules",
         "level_note": TRUST + "; porcupine v1.3.0 as linearizability checker; the reference model of DESIGN.md appendix A (validated against the implementation by C01)",
         "technique": "deterministic simulation (seeded scheduler over simhook windows) + porcupine linearizability check against an executable reference model + conservation checks",
         "rule": RULE_SCHED,
@@ -226,7 +226,7 @@ PROPS = {
             {"name": "lin-waste", "quick": 4000, "thorough": 100000, "thorough_time": 40},
             {"name": "lin-meta", "quick": 20000, "thorough": 1000000, "thorough_time": 60},
             {"name": "lin-elec", "quick": 20000, "thorough": 1000000, "thorough_time": 60, "extra": ["-sim.only=clear-active,delete-absent,active-mode-missing,two-normal-modes,active-mode-deleted,deadlock,caller-stuck,panic,internal-panic"]},
-            {"name": "lin-servers", "quick": 20000, "thorough": 1000000, "thorough_time": 80},
+            {"name": "lin-servers", "quick": 50000, "thorough": 1000000, "thorough_time": 80},
         ],
         "require_hits": ["resource.gau.commit", "collection.delete.commit", "value.publish", "collection.publish"],
         "assumptions": ["internal library goroutines react immediately", "preemption only at hook points", "operations of one step are treated as concurrent (sound, slightly permissive)"],
